@@ -17,7 +17,8 @@ EXTENDS Naturals, Sequences, FiniteSets, TLC
 CONSTANTS NPkts,         \* packets the sender emits
           Budget,        \* adversary actions
           Class,         \* "EandM" | "ETM" | "GCM" | "CHACHA"
-          ParseAfterError \* TRUE: sensitivity variant (input is still parsed after a fatal error)
+          ParseAfterError, \* TRUE: sensitivity variant (input is still parsed after a fatal error)
+          EofIsClean      \* TRUE: sensitivity variant (end of stream without DISCONNECT = orderly close)
 
 Regions == {"len", "body", "pad", "tag"}
 
@@ -25,28 +26,31 @@ VARIABLES
     emitted,    \* number of packets emitted so far (ids 1..emitted, seq = id - 1)
     wire,       \* packets in flight: [id, seq, taint, kind]
     rseq,       \* receiver's next sequence number / invocation counter
-    rstate,     \* "ok" | "err" | "stall"
+    rstate,     \* "ok" | "err" | "stall" | "clean" (orderly end reported to the application)
+    fin,        \* the adversary ended the stream (FIN) behind what is left on the wire
     delivered,  \* ids handed to the dispatcher
     touched,    \* smallest packet id the adversary has interfered at or before (0 = none)
     nadv,
     adv,        \* history of adversary actions
     lbl
 
-vars == <<emitted, wire, rseq, rstate, delivered, touched, nadv, adv, lbl>>
-view == <<emitted, wire, rseq, rstate, delivered, touched, nadv>>
-viewA == <<emitted, wire, rseq, rstate, delivered, touched, nadv, adv>>
+vars == <<emitted, wire, rseq, rstate, fin, delivered, touched, nadv, adv, lbl>>
+view == <<emitted, wire, rseq, rstate, fin, delivered, touched, nadv>>
+viewA == <<emitted, wire, rseq, rstate, fin, delivered, touched, nadv, adv>>
 
-Init == /\ emitted = 0 /\ wire = <<>> /\ rseq = 0 /\ rstate = "ok"
+Init == /\ emitted = 0 /\ wire = <<>> /\ rseq = 0 /\ rstate = "ok" /\ fin = FALSE
         /\ delivered = <<>> /\ touched = 0 /\ nadv = 0 /\ adv = <<>>
         /\ lbl = <<"init">>
 
 Emit ==
     /\ emitted < NPkts
     /\ emitted' = emitted + 1
-    /\ wire' = Append(wire, [id |-> emitted + 1, seq |-> emitted, taint |-> "none",
-                             kind |-> "genuine"])
+    \* what is written behind the adversary's FIN goes nowhere
+    /\ wire' = IF fin THEN wire
+               ELSE Append(wire, [id |-> emitted + 1, seq |-> emitted, taint |-> "none",
+                                  kind |-> "genuine"])
     /\ lbl' = <<"emit">>
-    /\ UNCHANGED <<rseq, rstate, delivered, touched, nadv, adv>>
+    /\ UNCHANGED <<rseq, rstate, fin, delivered, touched, nadv, adv>>
 
 Touch(id) == IF touched = 0 \/ id < touched THEN id ELSE touched
 \* the packet id at wire position i (for forged / foreign packets: the id of
@@ -54,12 +58,13 @@ Touch(id) == IF touched = 0 \/ id < touched THEN id ELSE touched
 IdAt(i) == IF i <= Len(wire) THEN wire[i].id ELSE emitted + 1
 
 AdvStep(name, args, w, id) ==
-    /\ nadv < Budget /\ rstate = "ok"
+    /\ nadv < Budget /\ rstate = "ok" /\ ~fin
     /\ wire' = w
     /\ touched' = Touch(id)
     /\ nadv' = nadv + 1
     /\ adv' = Append(adv, <<name, id>> \o args)
     /\ lbl' = <<"adv", name, id>> \o args
+    /\ fin' = (name = "fin")
     /\ UNCHANGED <<emitted, rseq, rstate, delivered>>
 
 Flip(i, region) ==
@@ -68,6 +73,11 @@ Flip(i, region) ==
 Truncate(i) ==
     /\ i \in 1..Len(wire) /\ wire[i].taint = "none"
     /\ AdvStep("trunc", <<i>>, [wire EXCEPT ![i].taint = "trunc"], wire[i].id)
+\* the stream is ended (TCP FIN towards the receiver) in front of packet i: that packet and
+\* everything behind it is removed, on a packet boundary, and the receiver sees end of stream
+Fin(i) ==
+    /\ i \in 1..Len(wire)
+    /\ AdvStep("fin", <<i>>, SubSeq(wire, 1, i - 1), wire[i].id)
 Drop(i) ==
     /\ i \in 1..Len(wire)
     /\ AdvStep("drop", <<i>>, SubSeq(wire, 1, i - 1) \o SubSeq(wire, i + 1, Len(wire)), wire[i].id)
@@ -102,7 +112,7 @@ Recv ==
     /\ wire # <<>> /\ (rstate = "ok" \/ (ParseAfterError /\ rstate = "err"))
     /\ LET p == Head(wire) IN
        /\ lbl' = <<"recv", p.id, p.kind, p.taint>>
-       /\ UNCHANGED <<emitted, touched, nadv, adv>>
+       /\ UNCHANGED <<emitted, fin, touched, nadv, adv>>
        /\ IF Authentic(p)
           THEN /\ delivered' = Append(delivered, p.id)
                /\ rseq' = rseq + 1
@@ -117,14 +127,22 @@ Recv ==
                   /\ rstate' = "stall" /\ wire' = <<>>
                   /\ UNCHANGED <<rseq, delivered>>
 
-Next == Emit \/ Recv
+\* end of stream without a DISCONNECT message (connection_lost with nothing pending, or in
+\* the middle of a packet): ConnectionLost, an error the application sees -- never an orderly end
+RecvEOF ==
+    /\ fin /\ wire = <<>> /\ rstate \in {"ok", "stall"}     \* "stall": part of a packet is pending
+    /\ rstate' = IF EofIsClean /\ rstate = "ok" THEN "clean" ELSE "err"
+    /\ lbl' = <<"recveof">>
+    /\ UNCHANGED <<emitted, wire, rseq, fin, delivered, touched, nadv, adv>>
+
+Next == Emit \/ Recv \/ RecvEOF
         \/ \E i \in 1..(NPkts + 2) :
               \/ \E r \in Regions : Flip(i, r)
-              \/ Truncate(i) \/ Drop(i) \/ Dup(i) \/ Swap(i)
+              \/ Truncate(i) \/ Drop(i) \/ Fin(i) \/ Dup(i) \/ Swap(i)
               \/ \E w \in {"replay", "foreign", "forged"} : Splice(i, w)
 
 Spec == Init /\ [][Next]_vars
-LiveSpec == Spec /\ WF_vars(Recv) /\ WF_vars(Emit)
+LiveSpec == Spec /\ WF_vars(Recv) /\ WF_vars(Emit) /\ WF_vars(RecvEOF)
 
 -----------------------------------------------------------------------------
 IsPrefixIds == \A i \in 1..Len(delivered) : delivered[i] = i
@@ -134,10 +152,13 @@ TamperEvident == IsPrefixIds
 PrefixIntact == (rstate \in {"err", "stall"} /\ touched > 0) => Len(delivered) >= touched - 1
 \* the untouched stream is delivered completely
 UntouchedComplete == (nadv = 0 /\ emitted = NPkts /\ wire = <<>>) => Len(delivered) = NPkts
+\* an orderly end is only ever reported when nothing was taken away: the attacker can stall the
+\* stream or make it fail, not shorten it unnoticed
+NoCleanEndWhenAltered == (rstate = "clean") => (nadv = 0 /\ Len(delivered) = emitted)
 EventuallyDecided == <>(wire = <<>> \/ rstate # "ok")
 
 \* emits every distinct adversary schedule with the model's verdict (always TRUE)
-EmitAdv == (nadv > 0 /\ (rstate # "ok" \/ (wire = <<>> /\ emitted = NPkts))) =>
+EmitAdv == (nadv > 0 /\ (rstate # "ok" \/ (wire = <<>> /\ emitted = NPkts /\ ~fin))) =>
               PrintT(ToString(<<"SCRIPT", adv, <<rstate, Len(delivered)>> >>))
 
 NeverStall == rstate # "stall"
